@@ -28,7 +28,7 @@ META = {
 COQ_TARGETS = ["Props/C16.vo", "Run/C16.vo"]
 PROPS_FILES = ["C16"]
 TRUSTED = ["model Model/Store.v hand-written from src/datastore.rs, src/font.rs (store part of save_impl / load), "
-           "src/glyph/mod.rs (Image::new); tied by anchors and by the exhaustive + structured correspondence",
+           "src/glyph/mod.rs (Image::new incl. the UTF-8 check of 2bd9911); tied by anchors and by the exhaustive + structured correspondence",
            "Coq 8.16.1 kernel and vm_compute; no axioms; no extraction",
            "lib/props/c16.py anchor extraction (regular expressions over the three source files)"]
 ASSUMPTIONS = ["std::path::Path::components / PathBuf::push behave as modelled (exercised on every key spelling of the runs)",
@@ -41,7 +41,7 @@ ASSUMPTIONS = ["std::path::Path::components / PathBuf::push behave as modelled (
                "HashMap order; only the refusal and the untouched disk are compared"]
 
 ERR = {0: "Ok", 1: "DirUnderFile", 2: "EmptyPath", 3: "NotPlainFileOrDir", 4: "PathIsAbsolute",
-       5: "InvalidPathComponent", 6: "NotPlainFile", 7: "Subdir", 8: "InvalidImage", 9: "Io"}
+       5: "InvalidPathComponent", 6: "NotPlainFile", 7: "Subdir", 8: "InvalidImage", 9: "Io", 10: "PathNotUnicode"}
 CODE = {v: k for k, v in ERR.items()}
 KEYS = ["a", "a/b", "a/b/c", "b", "a/", "./a", "a//b", "..", "../x", "/a", "", "A"]
 
